@@ -20,7 +20,9 @@ SEARCH_CASES = 400
 TRUSTED = [
     "Coq 8.16.1 kernel + vm_compute (no native_compute); Print Assumptions of every theorem in Props/C14.v: closed under the global context",
     "alias-table extractor harness/translate/c14.py (how from_pipeline, build_config/build, Pipeline.__init__, clone/from_config, connect, clear_inputs, "
-    "DatasetBuilder.__init__ and build_container obtain the mutable dictionaries of their source: Share / Shallow / Copy) -- regenerated and re-proved on every run",
+    "DatasetBuilder.__init__ and build_container obtain the mutable dictionaries of their source: Share / Shallow / Copy; how connect / clear_inputs / node resolve "
+    "the name, node object or alias they are handed; the set of statements that bind a wiring dictionary) and the two syntactic scans (ItemList parameters of "
+    "component calls; parameters holding a built Dataset / DataContainer / Pipeline anywhere in lenskit) -- regenerated and re-proved on every run",
     "hand-written heap model (Model/C14_heap.v): which object holds which reference and which operation writes through which; the CONTENT a dataset builder "
     "writes into its own schema/tables after each call is taken from the builder itself (the subject is aliasing, not schema logic)",
     "correspondence: random histories against real objects, every built pipeline and dataset re-observed after every step and compared with the model inside Coq",
@@ -35,11 +37,15 @@ ASSUMPTIONS = [
 RULE = ("histories of 8-30 operations over both families: dataset builder (entity classes, entities, interactions with new attributes and repeats, relationship "
         "classes, scalar/list/vector attributes, time and row filters, clear) -> build -> derive a builder from the dataset / keep using the producing builder / "
         "split (records, users, temporal) ; pipeline builder over importable functions and configurable/trainable components -> build -> modify() and rewire / "
-        "replace / add / alias / clear / change default, clone(), train the clone, run, keep using the producing builder, build again (one builder producing several "
+        "replace / add / alias / clear / change default -- every operation naming its node by node name, by node object or by an alias string, input sources "
+        "looked up by name or through an alias, the derived builder edited straight after modify() --, clone(), train the clone, run, keep using the producing "
+        "builder, build again (one builder producing several "
         "pipelines with and without edits in between, components added by class + settings and by instance, each sibling trained on other data and run; "
         "trained pipelines keep being re-observed, and two pipelines may hold the same component object only where that is specified); after every step every "
-        "built object is re-observed (config JSON, hash, wiring, node_input_connections, private wiring, run results; schema, tables, vocabularies, matrices, "
-        "attributes, saved form); plus standard pipelines around shipped scorers trained and run with every ItemList argument digested before and after each "
+        "built object is re-observed (config JSON, hash, wiring, node_input_connections, private wiring, alias / name lookups, run results; schema (fields and whole "
+        "document), tables, vocabularies, matrices with values, attributes, per-user / per-item statistics and the statistics of every matrix, counts, user rows, "
+        "saved form (when first seen, after every derivation from it, at the end)); datasets with declared-but-empty entity classes and with users / items that "
+        "never interact; the observer never edits a frame it is handed; plus standard pipelines around shipped scorers trained and run with every ItemList argument digested before and after each "
         "component call; non-trivial = at least one object observed across >= 3 later steps of which >= 1 is a mutation through a derived or producing builder; "
         "distinct = by hash of the case")
 
@@ -72,7 +78,7 @@ def translate():
 
 class Sym:
     def __init__(self):
-        self.pblds = []   # {"nodes": {name: kind}, "comps": {name: compkey}, "aliases": [], "tok": {name: token}}
+        self.pblds = []   # {"nodes": {name: kind}, "comps": {name: compkey}, "aliases": {alias: node name}, "tok": {name: token}}
         self.pipes = []   # {"nodes", "comps", "aliases", "tok"}
         self.dblds = []   # {"ents": {cls: set}, "rels": {cls: bool has time}, "attrs": set}
         self.dsets = []
@@ -99,6 +105,7 @@ def gen_history(rng):
     ops = []
     items = list(range(1, 9))
     users = list(range(100, 106))
+    idle_users = list(range(106, 110))
 
     def new_dbld(name):
         ops.append({"op": "dnew", "name": name})
@@ -110,8 +117,10 @@ def gen_history(rng):
         choice = rng.weighted([("entities", 3), ("interactions", 4), ("entity_class", 1), ("rel_class", 1), ("scalar", 2), ("list", 1), ("vector", 1),
                                ("filter", 2), ("clear", 1), ("click", 2)])
         if choice == "entities":
-            cls = rng.choice(sorted(b["ents"]))
-            ids = rng.sample(items if cls == "item" else users if cls == "user" else list(range(50, 56)), rng.randint(1, 4))
+            other = sorted(c for c in b["ents"] if c not in ("item", "user"))
+            cls = rng.choice(other) if other and rng.chance(1, 5) else rng.choice(sorted(c for c in b["ents"] if c in ("item", "user")))
+            # users 106.. and items 9.. never occur in an interaction: entities the dataset knows that have no records
+            ids = rng.sample(items + [9, 10] if cls == "item" else users + idle_users if cls == "user" else list(range(50, 56)), rng.randint(1, 4))
             ops.append({"op": "db_entities", "b": i, "cls": cls, "ids": ids})
             b["ents"][cls] |= set(ids)
         elif choice == "interactions":
@@ -170,7 +179,7 @@ def gen_history(rng):
 
     def new_pbld(name):
         ops.append({"op": "pnew", "name": name})
-        S.pblds.append({"nodes": {}, "comps": {}, "aliases": [], "tok": {}})
+        S.pblds.append({"nodes": {}, "comps": {}, "aliases": {}, "tok": {}})
         return len(S.pblds) - 1
 
     def gen_ins(b, comp, me, frac=(3, 4)):
@@ -179,11 +188,28 @@ def gen_history(rng):
         cands = order[: order.index(me)] if me in order else order
         return rng.shuffle([[p, rng.choice(cands)] for p in SIGS[comp] if cands and rng.chance(*frac)])
 
-    def pb_step(i):
+    def addr(b, n, modes=("name", "node", "alias")):
+        """how the operation names node `n`: by its node name, by the node object, or by an alias string that stands for it"""
+        al = sorted(a for a, t in b["aliases"].items() if t == n)
+        m = rng.weighted([(k, (3 if k == "alias" else 2)) for k in modes if k != "alias" or al])
+        return {"by": "alias", "via": rng.choice(al)} if m == "alias" else {"by": m}
+
+    def ins_via(b, ins):
+        "input sources handed over as node objects obtained by name or through an alias of the source"
+        out = {}
+        for p_, t in ins:
+            al = sorted(a for a, x in b["aliases"].items() if x == t)
+            if al and rng.chance(1, 3):
+                out[p_] = rng.choice(al)
+        return out
+
+    def pb_step(i, prefer=None):
         b = S.pblds[i]
         comps = sorted(b["comps"])
-        choice = rng.weighted([("add", 3), ("connect", 4 if comps else 0), ("clear", 2 if comps else 0), ("replace", 2 if comps else 0),
-                               ("alias", 2), ("unalias", 1 if b["aliases"] else 0), ("default", 1 if comps else 0), ("input", 1)])
+        if prefer in ("connect", "clear", "default") and not comps:
+            prefer = None
+        choice = prefer or rng.weighted([("add", 3), ("connect", 4 if comps else 0), ("clear", 2 if comps else 0), ("replace", 2 if comps else 0),
+                                         ("alias", 3), ("unalias", 1 if b["aliases"] else 0), ("default", 1 if comps else 0), ("input", 1)])
         if choice == "input":
             n = rng.choice([x for x in ["a", "b", "c", "d"] if x not in b["nodes"] and x not in b["aliases"]] or [None])
             if n:
@@ -205,15 +231,19 @@ def gen_history(rng):
             b["comps"][n] = comp
             b["tok"][n] = ("ctor",) if st == "class" else ("inst", S.tok())
         elif choice == "connect":
-            n = rng.choice(comps)
-            ops.append({"op": "pb_connect", "b": i, "name": n, "ins": gen_ins(b, b["comps"][n], n, (1, 2))})
+            aliased = sorted({t for t in b["aliases"].values() if t in b["comps"]})
+            n = rng.choice(aliased) if aliased and rng.chance(1, 2) else rng.choice(comps)
+            ins = gen_ins(b, b["comps"][n], n, (2, 3))
+            ops.append({"op": "pb_connect", "b": i, "name": n, "ins": ins, "ins_via": ins_via(b, ins), **addr(b, n)})
         elif choice == "clear":
-            ops.append({"op": "pb_clear", "b": i, "name": rng.choice(comps)})
+            n = rng.choice(comps)
+            ops.append({"op": "pb_clear", "b": i, "name": n, **addr(b, n)})
         elif choice == "replace":
             n = rng.choice(comps)
             comp = rng.choice(sorted(SIGS))
             st = rng.choice(STYLES[comp])
-            op = {"op": "pb_replace", "b": i, "name": n, "comp": comp, "style": st, "ins": gen_ins(b, comp, n, (1, 3))}
+            op = {"op": "pb_replace", "b": i, "name": n, "comp": comp, "style": st, "ins": gen_ins(b, comp, n, (1, 3)), **addr(b, n, ("name", "node"))}
+            op["ins_via"] = ins_via(b, op["ins"])
             if st != "fn":
                 op["settings"] = {"bias": rng.randint(0, 9)} if comp == "Learner" else {}
             ops.append(op)
@@ -223,14 +253,16 @@ def gen_history(rng):
             free = [x for x in ["al1", "rec", "zz"] if x not in b["nodes"] and x not in b["aliases"]]
             if free and b["nodes"]:
                 a = rng.choice(free)
-                ops.append({"op": "pb_alias", "b": i, "alias": a, "node": rng.choice(sorted(b["nodes"]))})
-                b["aliases"].append(a)
+                n = rng.choice(comps) if comps and rng.chance(3, 4) else rng.choice(sorted(b["nodes"]))
+                ops.append({"op": "pb_alias", "b": i, "alias": a, "node": n, **addr(b, n)})
+                b["aliases"][a] = n
         elif choice == "unalias":
-            a = rng.choice(b["aliases"])
+            a = rng.choice(sorted(b["aliases"]))
             ops.append({"op": "pb_unalias", "b": i, "alias": a})
-            b["aliases"].remove(a)
+            del b["aliases"][a]
         elif choice == "default":
-            ops.append({"op": "pb_default", "b": i, "name": rng.choice(comps)})
+            n = rng.choice(comps)
+            ops.append({"op": "pb_default", "b": i, "name": n, **addr(b, n)})
 
     def acyclic(b):
         return True
@@ -239,15 +271,26 @@ def gen_history(rng):
         b = S.pblds[i]
         ops.append({"op": "pbuild", "b": i})
         tok = {n: (("inst", S.tok()) if t == ("ctor",) else t) for n, t in b["tok"].items()}
-        S.pipes.append({"nodes": dict(b["nodes"]), "comps": dict(b["comps"]), "aliases": list(b["aliases"]), "tok": tok})
+        S.pipes.append({"nodes": dict(b["nodes"]), "comps": dict(b["comps"]), "aliases": dict(b["aliases"]), "tok": tok})
 
     def learner_toks(p):
         return {t for n, t in p["tok"].items() if p["comps"].get(n) == "Learner"}
 
     # --- a dataset and a pipeline to start with ---
     d0 = new_dbld(rng.choice(["d0", "ml"]))
+    if rng.chance(2, 3):
+        # a class that is declared and (mostly) stays without entities
+        cls = rng.choice(["tag", "genre"])
+        ops.append({"op": "db_entity_class", "b": d0, "cls": cls})
+        S.dblds[d0]["ents"].setdefault(cls, set())
     for _ in range(rng.randint(1, 4)):
         db_step(d0)
+    if rng.chance(1, 2):
+        # users the dataset knows that never interact
+        ids = rng.sample(users, rng.randint(0, 2)) + rng.sample(idle_users, rng.randint(1, 3))
+        ops.append({"op": "db_entities", "b": d0, "cls": "user", "ids": ids})
+        S.dblds[d0]["ents"].setdefault("user", set())
+        S.dblds[d0]["ents"]["user"] |= set(ids)
     if "rating" not in S.dblds[d0]["rels"]:
         rows = gen_ratings(rng, users, items, 6)
         ops.append({"op": "db_interactions", "b": d0, "cls": "rating", "rows": rows, "columns": ["user_id", "item_id", "rating", "timestamp"],
@@ -278,6 +321,8 @@ def gen_history(rng):
         S.pblds[p0]["nodes"][free[0]] = "comp"
         S.pblds[p0]["comps"][free[0]] = "Learner"
         S.pblds[p0]["tok"][free[0]] = ("ctor",) if st == "class" else ("inst", S.tok())
+    if S.pblds[p0]["comps"] and not any(t in S.pblds[p0]["comps"] for t in S.pblds[p0]["aliases"].values()) and rng.chance(3, 4):
+        pb_step(p0, prefer="alias")
     pbuild(p0)
     # one builder produces several pipelines (with and without edits in between); each is trained on other data and run
     if rng.chance(2, 3):
@@ -293,7 +338,7 @@ def gen_history(rng):
     # --- the continuation ---
     for _ in range(rng.randint(6, 18)):
         kind = rng.weighted([("pb", 5), ("pbuild", 2), ("pmodify", 2), ("pclone", 2), ("ptrain", 2), ("prun", 1),
-                             ("db", 5), ("dbuild", 2), ("dfrom", 2), ("dsplit", 2), ("dnew", 1), ("pnew", 1)])
+                             ("db", 5), ("dbuild", 2), ("dfrom", 2), ("dsplit", 3), ("dnew", 1), ("pnew", 1)])
         if kind == "pb":
             pb_step(rng.below(len(S.pblds)))
         elif kind == "pbuild":
@@ -302,12 +347,16 @@ def gen_history(rng):
             j = rng.below(len(S.pipes))
             ops.append({"op": "pmodify", "p": j})
             p = S.pipes[j]
-            S.pblds.append({"nodes": dict(p["nodes"]), "comps": dict(p["comps"]), "aliases": list(p["aliases"]), "tok": dict(p["tok"])})
+            S.pblds.append({"nodes": dict(p["nodes"]), "comps": dict(p["comps"]), "aliases": dict(p["aliases"]), "tok": dict(p["tok"])})
+            # the derived builder is edited straight away (its first edits are the ones that meet whatever it took from the pipeline)
+            if rng.chance(3, 4):
+                for _ in range(rng.randint(1, 3)):
+                    pb_step(len(S.pblds) - 1, prefer=rng.choice(["connect", "connect", "clear", "alias", None, None]))
         elif kind == "pclone":
             j = rng.below(len(S.pipes))
             ops.append({"op": "pclone", "p": j})
             p = S.pipes[j]
-            S.pipes.append({"nodes": dict(p["nodes"]), "comps": dict(p["comps"]), "aliases": list(p["aliases"]),
+            S.pipes.append({"nodes": dict(p["nodes"]), "comps": dict(p["comps"]), "aliases": dict(p["aliases"]),
                             "tok": {n: ("inst", S.tok()) for n in p["tok"]}})
         elif kind == "ptrain":
             ok = [j for j, p in enumerate(S.pipes)
@@ -339,12 +388,15 @@ def gen_history(rng):
                 elif how == "sample_users":
                     op["size"] = rng.randint(1, 2)
                     op["n"] = 1
+                    if rng.chance(1, 3):
+                        op["repeats"] = 2
+                        op["disjoint"] = rng.chance(1, 2)
                 elif how == "global_time":
                     op["time"] = 1_000_000 + rng.randint(5, 45) * 1000
                 else:
                     op["frac"] = rng.choice([0.2, 0.5])
                 ops.append(op)
-                n_new = 2 if how.startswith("crossfold") else 1
+                n_new = 2 if how.startswith("crossfold") or op.get("repeats") else 1
                 for _ in range(n_new):
                     S.dsets.append({"has_rating": True})
         elif kind == "dnew":
@@ -366,7 +418,7 @@ def gen_standard(rng):
 
 
 def gen_cases(rng, tier):
-    n = 120 if tier == "quick" else 1200
+    n = 80 if tier == "quick" else 1000
     out = []
     for k in range(n):
         r = rng.fork(k)
@@ -441,6 +493,11 @@ def wire_fun(ins):
     return f"(fun w => {f})"
 
 
+def given(op):
+    "the string an operation names its node with (a node object stands for its name)"
+    return op["via"] if op.get("by") == "alias" else op["name"]
+
+
 def model_ops(case, obs):
     """the model operations each real step stands for; handles of dataset builders are renumbered because a split
     creates a builder of its own"""
@@ -471,15 +528,16 @@ def model_ops(case, obs):
             ms.append(f"PBNode {op['b']} {cs(op['name'])} {spec}")
             ms.append(f"PBWire {op['b']} {cs(op['name'])} {wire_fun(op['ins'])}")
         elif k == "pb_connect" and not err:
-            ms.append(f"PBWire {op['b']} {cs(op['name'])} {wire_fun(op['ins'])}")
+            # the model is handed the string the real call was handed (an alias is resolved by the model itself)
+            ms.append(f"PBWire {op['b']} {cs(given(op))} {wire_fun(op['ins'])}")
         elif k == "pb_clear" and not err:
-            ms.append(f"PBClear {op['b']} {cs(op['name'])}")
+            ms.append(f"PBClear {op['b']} {cs(given(op))}")
         elif k == "pb_alias" and not err:
             ms.append(f"PBAlias {op['b']} (fun a => dset {cs(op['alias'])} {cs(op['node'])} a)")
         elif k == "pb_unalias" and not err:
             ms.append(f"PBAlias {op['b']} (fun a => ddel {cs(op['alias'])} a)")
         elif k == "pb_default" and not err:
-            ms.append(f"PBDefault {op['b']} (Some {cs(op['name'])})")
+            ms.append(f"PBDefault {op['b']} (Some {cs(given(op))})")
         elif k == "pbuild" and not err:
             ms.append(f"PBuild {op['b']}")
         elif k == "pmodify" and not err:
@@ -532,7 +590,7 @@ def coq_term(case, obs):
 # the property as a predicate on implementation output (independent of the Coq model)
 # ---------------------------------------------------------------------------------------------
 
-P_CONST = ["name", "edges", "aliases", "default", "hash", "config", "nic", "private_edges"]
+P_CONST = ["name", "edges", "aliases", "default", "hash", "config", "nic", "private_edges", "lookup"]
 
 
 def render_history(case, obs, t0, t1):
@@ -541,6 +599,10 @@ def render_history(case, obs, t0, t1):
     for op, st in list(zip(case["ops"], obs["steps"]))[t0:t1 + 1]:
         h = ",".join(f"{k}{op[k]}" for k in ("b", "p", "d") if k in op)
         extra = op.get("name") or op.get("alias") or op.get("cls") or op.get("how") or ""
+        if op.get("by") == "alias":
+            extra = f"{extra} as alias {op['via']}"
+        elif op.get("by") == "node":
+            extra = f"{extra} as node object"
         out.append(f"{op['op']}({h}{':' + str(extra) if extra else ''}){'!' + st['result']['err'] if st['result']['err'] else ''}")
     return " -> ".join(out)
 
@@ -572,6 +634,8 @@ def oracle(case, obs):
     for t, (op, st) in enumerate(zip(case["ops"], obs["steps"])):
         if op["op"] == "ptrain" and not st["result"]["err"]:
             trained.add(op["p"])
+        # the step a difference first shows after, with what distinguishes it: how the node was named / which splitter ran
+        after = op["op"] + (":by-" + op["by"] if op.get("by", "name") != "name" else "") + (":" + op["how"] if "how" in op else "")
         # component instances: two pipelines hold the same object only where that is specified (modify(), caller's instance)
         pipes = st["snap"]["pipes"]
         for j in range(len(pipes)):
@@ -589,12 +653,12 @@ def oracle(case, obs):
             t0, o0 = first_p[j]
             for f in P_CONST:
                 if o[f] != o0[f] and once(("p", j, f)):
-                    bad(f"pipeline-changed:{f}:after-{op['op']}", f"pipeline #{j} built at step {t0} has a different {f} after step {t} ({op['op']}): "
-                                                                 f"{json.dumps(o0[f])[:120]} -> {json.dumps(o[f])[:120]}")
+                    bad(f"pipeline-changed:{f}:after-{after}", f"pipeline #{j} built at step {t0} has a different {f} after step {t} ({op['op']}): "
+                                                              f"{json.dumps(o0[f])[:120]} -> {json.dumps(o[f])[:120]}; history: {render_history(case, obs, t0, t)}")
             if not (op["op"] == "ptrain" and op["p"] == j and not st["result"]["err"]):
                 for f in ("nodes", "runs"):
                     if o[f] != o0[f] and once(("p", j, f)):
-                        bad(f"pipeline-changed:{f}:after-{op['op']}", f"pipeline #{j} (not trained since it was last observed) has different {f} after step {t} "
+                        bad(f"pipeline-changed:{f}:after-{after}", f"pipeline #{j} (not trained since it was last observed) has different {f} after step {t} "
                             f"({op['op']}): {json.dumps(o0[f])[:100]} -> {json.dumps(o[f])[:100]}; history: {render_history(case, obs, t0, t)}")
             else:
                 # the pipeline itself was trained in this step: its component state and results are re-recorded from here on
@@ -606,12 +670,17 @@ def oracle(case, obs):
             t0, o0 = first_d[j]
             for f in ("meta", "ents", "rels", "tables"):
                 if o[f] != o0[f] and once(("d", j, f)):
-                    bad(f"dataset-changed:{f}:after-{op['op']}", f"dataset #{j} built at step {t0} has a different {f} after step {t} ({op['op']}): "
-                                                                f"{json.dumps(o0[f])[:140]} -> {json.dumps(o[f])[:140]}")
+                    bad(f"dataset-changed:{f}:after-{after}", f"dataset #{j} built at step {t0} has a different {f} after step {t} ({op['op']}): "
+                                                             f"{json.dumps(o0[f])[:140]} -> {json.dumps(o[f])[:140]}; history: {render_history(case, obs, t0, t)}")
             ks = [k for k in o.get("views", {}) if k in o0.get("views", {}) and o["views"][k] != o0["views"][k]]
             ks += [k for k in o0.get("views", {}) if k != "saved" and k not in o.get("views", {})]
-            if ks and once(("d", j, "views")):
-                bad(f"dataset-changed:views:after-{op['op']}", f"dataset #{j} built at step {t0} shows different {ks} after step {t} ({op['op']})")
+            # one report per kind of view (identifiers, attributes, relationship frames, matrices, statistics, counts, rows, saved form, schema document)
+            for kind in sorted({k.split(":")[0] for k in ks}):
+                if once(("d", j, "views", kind)):
+                    mine = [k for k in ks if k.split(":")[0] == kind]
+                    bad(f"dataset-changed:view-{kind}:after-{after}", f"dataset #{j} built at step {t0} shows different {mine} after step {t} ({op['op']}): "
+                        f"{json.dumps(o0['views'].get(mine[0]))[:100]} -> {json.dumps(o.get('views', {}).get(mine[0]))[:100]}; "
+                        f"history: {render_history(case, obs, t0, t)}")
     return v
 
 
@@ -643,7 +712,18 @@ def counters(case, obs):
     for op, st in zip(case["ops"], obs["steps"]):
         yield "op=" + op["op"] + (":error" if st["result"]["err"] else "")
         if op["op"] == "dsplit":
-            yield "split=" + op["how"]
+            yield "split=" + op["how"] + (":repeats" if op.get("repeats") else "")
+        if "by" in op:
+            yield f"{op['op']}:node-named-by={op['by']}"
+        if op["op"] in ("dsplit", "dfrom") and not st["result"]["err"] and op["d"] < len(st["snap"]["dsets"]):
+            f = st["snap"]["dsets"][op["d"]].get("facts")
+            if isinstance(f, dict):
+                yield f"{op['op']}:source-has-empty-class={bool(f['empty_classes'])}"
+                yield f"{op['op']}:source-has-idle-users={bool(f['idle_users'])}"
+        if op["op"] == "pb_connect" and op.get("by") == "alias" and not st["result"]["err"] and any(
+                o2["op"] == "pmodify" and sum(1 for o3 in case["ops"][:k2 + 1] if o3["op"] in ("pnew", "pmodify")) - 1 == op["b"]
+                for k2, o2 in enumerate(case["ops"])):
+            yield "connect-by-alias-on-modifying-builder"
     last = obs["steps"][-1]["snap"]
     yield f"pipelines={len(last['pipes'])}"
     yield f"datasets={min(len(last['dsets']), 8)}"
@@ -662,7 +742,7 @@ _SHRINK_BUDGET = [45]
 
 def shrink(case, fails):
     "drop operations from the end, then single non-creating operations; every trial replays the whole history, so the effort is capped"
-    if case["kind"] != "history":
+    if case["kind"] != "history" or _SHRINK_BUDGET[0] <= 0:
         return case
     ops = list(case["ops"])
 
